@@ -180,7 +180,7 @@ class Projector:
             return []
         return [self.I.row(momenta, i) for i in range(len(momenta))]
 
-    def kin_of(self, k, candidates):
+    def kin_of(self, k, candidates, all_matches=False):
         """momentum tuple (among candidates) whose kinetic energy equals k"""
         if k is None or (isinstance(k, float) and np.isnan(k)):
             return []
@@ -190,13 +190,20 @@ class Projector:
                 self.recent_mom.append(np.array(mom, copy=True))
                 if len(self.recent_mom) > 6:
                     self.recent_mom.pop(0)
+        out = []
         for mom in list(candidates) + self.recent_mom[::-1]:
             if mom is None or len(mom) != len(masses):
                 continue
             kk = 0.5 * float(np.vdot(mom, mom / masses[:, None])) if len(mom) else 0.0
             if abs(kk - k) <= 1e-9 * max(1.0, abs(k)):
-                return self.mom_id(mom)
-        return [-1]
+                ident = self.mom_id(mom)
+                if ident not in out:
+                    out.append(ident)
+        if all_matches:
+            # two momentum tuples can have the same kinetic energy (a trajectory in a force-free region conserves it):
+            # ownership of a kinetic energy is a set, like ownership of a potential energy
+            return out or [[-1]]
+        return out[0] if out else [-1]
 
     # -- the state --------------------------------------------------------
     def usable(self):
@@ -270,6 +277,7 @@ class Projector:
         last_res = self.cfg_of_energy(lres.get("energy"), prefer=cur, field="lastRes") if "energy" in lres else [NOCFG]
         lk = getattr(ctx, "last_kinetic_energy", None)
         last_k = self.kin_of(lk, [mom, lm, *extra_mom_candidates]) if lk is not None else []
+        last_k_alt = self.kin_of(lk, [mom, lm, *extra_mom_candidates], all_matches=True) if lk is not None else []
         labels, presel = {}, {}
         for mid, m in self.mobjs.items():
             if hasattr(m, "labels"):
@@ -287,7 +295,7 @@ class Projector:
             tt = I.tok(b)
         return {
             "atoms": rows, "cell": cur["c"], "cons": sorted(cons),
-            "lastPos": last_pos, "lastCell": last_cell, "lastMom": last_mom, "lastE": lastE, "lastK": last_k, "lastRes": last_res,
+            "lastPos": last_pos, "lastCell": last_cell, "lastMom": last_mom, "lastE": lastE, "lastK": last_k, "lastKalt": last_k_alt, "lastRes": last_res,
             "calcAtoms": calc_cfg, "calcRes": calc_res, "usable": self.usable(), "evals": int(getattr(calc, "ncalc", 0)),
             "added": [int(i) for i in np.asarray(getattr(ctx, "_added_indices", []), dtype=int).ravel()],
             "deleted": [int(i) for i in np.asarray(getattr(ctx, "_deleted_indices", []), dtype=int).ravel()],
